@@ -45,4 +45,13 @@ theorem pinned_tree_accepts_copied_id :
     let x : Entry := { hash := 5, logId := 9, time := 1, cid := 7, next := [], ident := 1, key := 7, identOk := false }
     acl.canAppendPinned x = true ∧ acl.canAppend x = false := by decide
 
+/-- the reload route (`Load` after a restart): only entries written for this log are handed to
+`Join` (after the `fix:` commit, finding F27) — an entry of another log named in a colluding writer's
+`refs`, which `Join` would merge as a head without checking its author, does not come back -/
+theorem reload_route_joins_only_this_logs_entries (id : Nat) (fetch : Nat → OMap) (h : Nat) :
+    ∀ e ∈ ownFetch id fetch h, e.logId = id := by
+  intro e he
+  unfold ownFetch at he
+  simpa using (List.mem_filter.mp he).2
+
 end Orbit.C03
